@@ -225,15 +225,19 @@ def run_part(ctx, chains_out=None):
     # ---- the real records: violated clauses (TLC LangChainsTrace) and kinds (worker)
     real_viol = {}
     for f in chains_out["fails"]:
-        if f["rec"].get("source") == "repository-tests":
-            continue
+        if f["rec"].get("source") == "repository-tests" or str(f["rec"].get("lang", "")).startswith("shared:"):
+            continue       # (shared:<lang> records: the chains run in sequence on shared schemas; they have no model counterpart)
         real_viol[lc.case_key(f["rec"])] = set(f["clauses"]) | ({"AllRefsResolve"} if f["dangling"] else set())
     real = {}
+    shared_skipped = 0
     with open(summ_path) as f:
         for line in f:
             r = json.loads(line)
+            if str(r.get("lang", "")).startswith("shared:"):
+                shared_skipped += 1
+                continue
             real[model_key(r)] = (bool(r["err"]), r["kinds"])
-    if summ_stats["records"] != len(real):
+    if summ_stats["records"] - shared_skipped != len(real):
         raise core.Inconclusive("real summary has %d records for %d keys" % (summ_stats["records"], len(real)))
 
     # ---- design faults: confirmed by the real run of the witness => VIOLATION, otherwise drift
